@@ -549,6 +549,10 @@ func c18token(r *vf.Rand, cats [][32]byte) wire.TokenData {
 	}
 	if td.BitField&wire.HAS_COMMITMENT_LENGTH != 0 {
 		td.Commitment = r.Bytes(1 + r.Intn(40))
+		if r.Chance(1, 8) {
+			// longer than consensus allows; the struct and the serialiser carry any length
+			td.Commitment = r.Bytes([]int{41, 64, 252, 253, 300}[r.Intn(5)])
+		}
 	}
 	if td.BitField&wire.HAS_AMOUNT != 0 {
 		if r.Bool() {
@@ -612,7 +616,15 @@ func c18seededTx(c *vf.Ctx) (*wire.MsgTx, string) {
 		// a standard script form around a random hash / key: outputs of one
 		// transaction then differ in the pushed data or only in the opcodes
 		// before / after it
-		switch r.Intn(5) {
+		switch r.Intn(7) {
+		case 5: // OP_RETURN with a well-known protocol prefix (SLP, memo) and further pushes
+			base = append([]byte{0x6a, 0x04, 0x53, 0x4c, 0x50, 0x00, 0x01, 0x01, 0x04}, []byte("SEND")...)
+			if r.Bool() {
+				base = append([]byte{0x6a, 0x02, 0x6d, 0x02}, append([]byte{byte(1 + r.Intn(20))}, r.Bytes(20)...)[:1+r.Intn(20)]...)
+			}
+		case 6: // plain OP_RETURN data
+			d := r.Bytes(1 + r.Intn(30))
+			base = append([]byte{0x6a, byte(len(d))}, d...)
 		case 0, 1: // P2PKH
 			base = append(append([]byte{0x76, 0xa9, 0x14}, r.Bytes(20)...), 0x88, 0xac)
 		case 2: // P2SH
